@@ -15,4 +15,4 @@ d=/verif/seeded/$p-$r; mkdir -p $d
 cp /tmp/seedin_$p.diff $d/patch.diff; cp $out/demo.py $out/meta.json $d/
 cd /verif; git -C /repo worktree remove --force $wt; rm -rf $out /tmp/seedin_$p.*
 [ $a != 0 ] && [ $b = 0 ] || { echo "DEMO NOT CONFIRMED"; }
-/verif/harness/seedtest.sh $d ${@:-$p}
+[ -n "$NOTEST" ] || /verif/harness/seedtest.sh $d ${@:-$p}
